@@ -2,6 +2,7 @@ package rules
 
 import (
 	"fmt"
+	"go/token"
 	"go/types"
 	"sort"
 	"strings"
@@ -520,8 +521,12 @@ func checkEmitOrder(ctx *Ctx, roles *EmitterRoles, writer *ssa.Function) {
 		n++
 		if safe[fn] {
 			R.Pass("order", fn.Name(), ctx.Prog.Pos(fn.Pos()), "bookkeeping only after the writer")
+		} else if why := orderSemantic(ctx, roles, fn, tracked); why == "" {
+			// the refusal may sit in front of the bookkeeping in another form (a capacity test of its own, a
+			// checking helper): decided on the abstract run - no refusal can follow a bookkeeping store
+			R.Pass("order", fn.Name(), ctx.Prog.Pos(fn.Pos()), "no refusal is possible once bookkeeping has been stored (abstract run: every panic precedes the first store to n/address/labels/references on its path)")
 		} else {
-			R.Fail("order", fn.Name(), ctx.Prog.Pos(fn.Pos()), offending[fn])
+			R.Fail("order", fn.Name(), ctx.Prog.Pos(fn.Pos()), offending[fn]+"; on the abstract run: "+why)
 		}
 	}
 	R.Count("writer-reaching-functions", n)
@@ -539,4 +544,97 @@ func checkEmitOrder(ctx *Ctx, roles *EmitterRoles, writer *ssa.Function) {
 			R.Fail("order", "target-written-by:"+fn.Name(), ctx.Prog.Pos(fn.Pos()), "an emitting function stores into the target buffer itself, bypassing the writer's capacity check: "+effectList(ctx, fields[roles.Code]))
 		}
 	}
+}
+
+// orderSemantic interprets fn (loops in arbitrary-iteration mode) and reports a panic that can follow, on a common
+// path, a store to one of the tracked bookkeeping fields of the receiver: such a refusal would leave the emitter
+// half updated. Two events share a path unless their guards contradict each other.
+func orderSemantic(ctx *Ctx, roles *EmitterRoles, fn *ssa.Function, tracked map[int]string) string {
+	ip := absint.New()
+	ip.TraceStores = true
+	var recv *absint.Ptr
+	S := roles.Struct
+	_, _ = ip.CallFix(fn, func() ([]absint.Val, *absint.State) {
+		st := &absint.State{Heap: absint.NewHeap(nil)}
+		recv = &absint.Ptr{Nil: absint.TriF, Obj: ip.SymObj("a", roles.Named), T: roles.Named}
+		ct := S.Field(roles.Code).Type()
+		if cv, ok := ip.Load(st, fieldPtr(recv, ct, roles.Code), ct).(*absint.Slice); ok {
+			cv.Nil = absint.TriF
+			ip.Store(st, fieldPtr(recv, ct, roles.Code), ct, cv)
+		}
+		args := []absint.Val{recv}
+		for i, p := range fn.Params[1:] {
+			name := fmt.Sprintf("p%d", i)
+			if w, sg, ok := absint.IntType(p.Type()); ok {
+				args = append(args, absint.NewSym(w, ip.In.Atom(name, w, ^uint64(0)>>(64-uint(w))), sg))
+			} else if b, ok := p.Type().Underlying().(*types.Basic); ok && b.Info()&types.IsString != 0 {
+				args = append(args, &absint.Str{Key: name})
+			} else if _, ok := p.Type().Underlying().(*types.Slice); ok {
+				sv := ip.Load(st, &absint.Ptr{Obj: ip.SymObj(name, types.NewPointer(p.Type()))}, p.Type())
+				if sl, ok := sv.(*absint.Slice); ok {
+					sl.Nil = absint.TriF
+				}
+				args = append(args, sv)
+			} else if pt, ok := p.Type().Underlying().(*types.Pointer); ok {
+				args = append(args, &absint.Ptr{Nil: absint.TriF, Obj: ip.SymObj(name, pt.Elem()), T: pt.Elem()})
+			} else {
+				args = append(args, &absint.Top{T: p.Type(), Key: name})
+			}
+		}
+		return args, st
+	})
+	for _, m := range ip.Imprec {
+		if !strings.Contains(m, "unmodelled external") {
+			return "not interpretable: " + m
+		}
+	}
+	type eff struct {
+		seq    int
+		what   string
+		pos    token.Pos
+		guards []absint.GuardInfo
+	}
+	var effs []eff
+	for _, st := range ip.Stores {
+		if st.Obj != recv.Obj || len(st.Path) == 0 {
+			continue
+		}
+		name := strings.TrimPrefix(absint.PrettyPath(roles.Named, st.Path), ".")
+		for _, tn := range tracked {
+			if name == tn || strings.HasPrefix(name, tn+".") || strings.HasPrefix(name, tn+"[") {
+				effs = append(effs, eff{st.Seq, "store to " + tn, st.Pos, st.GuardL})
+			}
+		}
+	}
+	for _, ev := range ip.Events {
+		if ev.Kind == "map-update" && len(ev.Args) > 0 {
+			k := absint.ValKey(ev.Args[0])
+			if f := fieldOfKey(S, k, "a"); f >= 0 {
+				if tn, ok := tracked[f]; ok {
+					effs = append(effs, eff{ev.Seq, "update of " + tn, ev.Pos, ev.PathL})
+				}
+			}
+		}
+	}
+	compatible := func(a, b []absint.GuardInfo) bool {
+		for _, x := range a {
+			for _, y := range b {
+				if x.Key == y.Key && x.Outcome != y.Outcome {
+					return false
+				}
+			}
+		}
+		return true
+	}
+	for _, ev := range ip.Events {
+		if ev.Kind != "panic" && ev.Kind != "fatal" {
+			continue
+		}
+		for _, e := range effs {
+			if e.seq < ev.Seq && compatible(e.guards, ev.PathL) {
+				return fmt.Sprintf("the panic at %s can follow the %s at %s", ctx.Prog.Pos(ev.Pos), e.what, ctx.Prog.Pos(e.pos))
+			}
+		}
+	}
+	return ""
 }
